@@ -146,6 +146,8 @@ pub struct Exec {
 }
 
 thread_local! {
+    /// known findings met by any executor on this thread during the current run
+    pub static KNOWN_SEEN: std::cell::RefCell<Vec<String>> = const { std::cell::RefCell::new(Vec::new()) };
     /// the property whose check is running (set by the runner per worker thread)
     pub static PROP_UNDER_CHECK: std::cell::RefCell<String> = std::cell::RefCell::new("C08".to_string());
 }
@@ -203,8 +205,15 @@ impl Exec {
         // a listed known finding is noted and the run goes on, so that it cannot hide anything
         // else that the rest of the run would have shown
         if let Some(k) = crate::runner::known_finding(&v) {
+            let line = format!("KNOWN-FINDING: property={} {}", v.prop, k);
+            KNOWN_SEEN.with(|s| {
+                let mut s = s.borrow_mut();
+                if s.len() < 20 && !s.contains(&line) {
+                    s.push(line.clone());
+                }
+            });
             if self.known.len() < 20 {
-                self.known.push(format!("KNOWN-FINDING: property={} {}", v.prop, k));
+                self.known.push(line);
             }
             return;
         }
